@@ -12,7 +12,7 @@ ENGINES = [
     dict(name="kani-harnesses", path="/verif/vk/kani_unit.py", serves_properties=["C01", "C02", "C06", "C07", "C08", "C09", "C12"],
          kind_free_text="cargo kani on the real crate; harness files /verif/kani/*_proofs.rs are compiled into the defining modules through cfg(kani) hooks; "
                         "loop-free full-domain harnesses are complete, harnesses with symbolic strings are bounded stand-ins and never counted as proved"),
-    dict(name="verus-units", path="/verif/vk/verus_unit.py", serves_properties=["C01", "C02", "C03", "C05", "C06", "C07", "C08", "C09", "C10", "C12", "C13", "C14", "C15", "C16", "C17", "C19", "C20"],
+    dict(name="verus-units", path="/verif/vk/verus_unit.py", serves_properties=["C01", "C02", "C03", "C04", "C05", "C06", "C07", "C08", "C09", "C10", "C12", "C13", "C14", "C15", "C16", "C17", "C19", "C20"],
          kind_free_text="mechanical extraction of the real functions (vk/extract.py, rules R1-R8) + contracts/<unit>.vc, discharged by Verus 0.2026.09.13 / Z3; "
                         "every diagnostic is mapped back to a named obligation (function::label)"),
 ]
@@ -166,6 +166,25 @@ CHECKS = {
         level_note="HTTP only: the WebSocket transport streams queued messages and has no reply vector. Sequential: messages pushed by other sessions during "
                    "the request are not modelled. start_http_client's glue (fresh Client per request, join with ';') is not verified. What a command returns or "
                    "queues is not decided here.",
+    ),
+    "C04": dict(
+        engine="verus-units", design_ref="DESIGN.md §19 'C04 contract notes'", technique="deductive verification (Verus/Z3) of exact step contracts on the extracted real store operations and replication handlers, plus a machine-checked two-run (replica) lemma by induction over line sequences",
+        text="Per-step half plus an induction lemma, NOT the protocol-level theorem. Proved on the real code, for all states and arguments: Database::set_value, remove_value (and remove_key), inc_value "
+             "each satisfy an EXACT step predicate (set_exact / remove_exact / inc_exact): outcome and resulting cell - text, version, dirty / persisted / removed state - are a function of the "
+             "key's old cell and of the line's own fields (key, text, version; key; key and amount), of nothing else (no clock, no disk address, no other key), and no other key moves; without "
+             "a conflict strategy set_key_value / apply_change_to_db_try_fix_conflicts add nothing to the store's write; the REAL handlers of `replicate`, `replicate-remove`, `replicate-increment` "
+             "(dispatcher arms, closures lifted) run exactly that step on the database the line names and touch no other database; an accepted set / remove / increment leaves the node as "
+             "exactly its own line and a refused one leaves nothing (replicate_request), the receiver's parsers read the fields the sender wrote, a peer's write is relayed unchanged, the "
+             "fan-out hands the operation to exactly the other members / the secondaries, and a remove accepted away from the primary is forwarded to it. Lemmas (machine-checked): the "
+             "same line applied to two databases that agree (same keys; same text, version and state per key) is answered alike and leaves them agreeing (lemma_replica_step), hence two "
+             "nodes that agreed and applied the SAME sequence of lines in the same order agree after every prefix, for any number of lines (lemma_replicas_converge, induction). Bounded "
+             "stand-in: families replica (a primary's lines fed in order to a secondary) and traffic (two nodes wired in process, one to three client commands on either node, exchange run "
+             "to silence, then every key of every database compared: live keys, values, versions). TWO sweep clauses fail on the unchanged tree for writes accepted by a SECONDARY and are "
+             "open known findings; one genuine defect (a remove accepted by a secondary never reached the primary) was repaired (58a84b1).",
+        level_note="What the statement quantifies over - delivery orders, several processes, concurrent clients - is not decided; in-order delivery of the primary's lines is the lemma's HYPOTHESIS. "
+                   "`newer` databases are outside the exact-step clauses (node-local op ids decide). Sequential semantics. The exact predicates pin the version arithmetic (e.g. an increment of "
+                   "an absent key starts at version 1): a change of that arithmetic applied consistently on every node would still converge but fails the clause - it restates what C01 / C02 clauses "
+                   "of the same functions already pin.",
     ),
     "C14": dict(
         engine="verus-units", design_ref="DESIGN.md §18 'C14 contract notes'", technique="deductive verification (Verus/Z3) of per-step traffic contracts on extracted real code (every line handed to another node's link counted on an explicit wire token), plus a machine-checked ranking lemma over those step bounds",
